@@ -14,6 +14,7 @@ import (
 	"fmt"
 	"math/rand"
 	"strings"
+	"sync"
 	"time"
 
 	"github.com/luno/workflow"
@@ -35,14 +36,21 @@ func unName(prefix, s string) int {
 	return atoi(strings.TrimPrefix(s, prefix))
 }
 
-func storeRecTok(r *workflow.Record) string {
+func storeRecTok(r *workflow.Record) string { return storeRecTokC(r, true) }
+
+// withCreated=false: the store stamps CreatedAt itself (SQL: created_at=now()), so it is not compared
+func storeRecTokC(r *workflow.Record, withCreated bool) string {
 	var o Obj
 	seed := -999
 	if err := json.Unmarshal(r.Object, &o); err == nil {
 		seed = o.Seed
 	}
+	created := int64(0)
+	if withCreated {
+		created = int64(r.CreatedAt.Sub(simBase))
+	}
 	return fmt.Sprintf("%d.%d.%d.%d.%d.%d.%d.%d", unName("wf", r.WorkflowName), unName("f", r.ForeignID), unName("r", r.RunID),
-		int(r.RunState), r.Status, seed, int64(r.CreatedAt.Sub(simBase)), r.Meta.Version)
+		int(r.RunState), r.Status, seed, created, r.Meta.Version)
 }
 
 func splitVals(s string) []string {
@@ -54,11 +62,39 @@ func splitVals(s string) []string {
 
 // recordStoreOps drives any workflow.RecordStore with the "ms" operation language.
 func recordStoreOps(store workflow.RecordStore, ops []string) string {
+	return recordStoreOpsCreated(store, ops, true)
+}
+
+// outbox entry numbering must survive across calls for one store
+var storeOids = map[workflow.RecordStore]*oidState{}
+var storeOidsMu sync.Mutex
+
+type oidState struct {
+	oids map[string]int
+	next int
+	wfs  map[string]bool
+}
+
+func recordStoreOpsCreated(store workflow.RecordStore, ops []string, withCreated bool) string {
 	ctx := context.Background()
+	storeOidsMu.Lock()
+	stt := storeOids[store]
+	if stt == nil {
+		stt = &oidState{oids: map[string]int{}, next: 1, wfs: map[string]bool{}}
+		storeOids[store] = stt
+		if len(storeOids) > 4096 {
+			for k := range storeOids {
+				if k != store {
+					delete(storeOids, k)
+				}
+			}
+		}
+	}
+	storeOidsMu.Unlock()
+	storeRecTok := func(r *workflow.Record) string { return storeRecTokC(r, withCreated) }
 	var out []string
-	oids := map[string]int{}
-	nextOid := 1
-	wfs := map[string]bool{}
+	oids := stt.oids
+	wfs := stt.wfs
 	for _, op := range ops {
 		f := strings.Split(op, ".")
 		switch f[0] {
@@ -79,8 +115,8 @@ func recordStoreOps(store workflow.RecordStore, ops []string) string {
 				evs, _ := store.ListOutboxEvents(ctx, w, 1<<30)
 				for _, e := range evs {
 					if _, ok := oids[e.ID]; !ok {
-						oids[e.ID] = nextOid
-						nextOid++
+						oids[e.ID] = stt.next
+						stt.next++
 					}
 				}
 			}
